@@ -131,8 +131,16 @@ func (c12) Gen(rng *rand.Rand, tier string, k int) *Case {
 	c := &Case{Family: "sync", Impl: []string{"memory", "memory", "file", "sql"}[rng.Intn(4)]}
 	c.Entity = "asset.Sync>" + c.Impl
 	na := 1 + rng.Intn(5)
+	many := rng.Intn(40) == 0
+	if many {
+		na = 60 + rng.Intn(90) // far more assets than workers or any fixed-size queue
+	}
 	for i := 0; i < na; i++ {
-		a := AssetSpec{Name: string(rune('A' + i)), SrcFrom: rng.Intn(6), SrcN: rng.Intn(8), TgtFrom: rng.Intn(6), TgtN: rng.Intn(6), Seed: rng.Int63n(1 << 30)}
+		name := string(rune('A' + i))
+		if many {
+			name = fmt.Sprintf("N%03d", i)
+		}
+		a := AssetSpec{Name: name, SrcFrom: rng.Intn(6), SrcN: rng.Intn(8), TgtFrom: rng.Intn(6), TgtN: rng.Intn(6), Seed: rng.Int63n(1 << 30)}
 		switch rng.Intn(8) {
 		case 0:
 			a.TgtAbsent = true
@@ -143,11 +151,19 @@ func (c12) Gen(rng *rand.Rand, tier string, k int) *Case {
 		case 3:
 			a.TgtN, a.TgtEmpty = 0, true
 		}
+		if many {
+			a.SrcN, a.TgtN = rng.Intn(3), rng.Intn(2)
+		}
 		c.Assets = append(c.Assets, a)
 	}
 	c.Workers = []int{1, 1, 2, 3, 4, 8}[rng.Intn(6)]
 	c.Delay = []int{0, 1, 5}[rng.Intn(3)]
-	c.Param = []int{rng.Intn(8)} // default start day
+	c.Param = []int{rng.Intn(8), 0} // default start day, date mode
+	if c.Impl != "file" && rng.Intn(6) == 0 {
+		// local midnights in a daylight-saving zone (the file-system target stores dates without a
+		// zone, so it is left out: its round trip turns them into UTC days)
+		c.Param[1] = 1 + rng.Intn(2)
+	}
 	if rng.Intn(2) == 0 {
 		c.Mode = "explicit"
 		for _, a := range c.Assets {
@@ -240,12 +256,33 @@ func (c12) Shrinks(c *Case) []*Case {
 	return out
 }
 
-func syncSnapshots(from, n int, seed int64, tag float64) []*asset.Snapshot {
+// syncBase is day 0 of a sync case. Mode 0: UTC. Modes 1 and 2: local midnights in a zone with
+// daylight saving, placed so that the drawn days straddle the spring-forward day ("one day after
+// the last date" is a calendar day there, not 24 hours).
+func syncBase(c *Case) time.Time {
+	mode := 0
+	if len(c.Param) > 1 {
+		mode = c.Param[1]
+	}
+	switch mode {
+	case 1:
+		if loc, err := time.LoadLocation("America/New_York"); err == nil {
+			return time.Date(2020, 3, 4, 0, 0, 0, 0, loc) // 2020-03-08 is day 4
+		}
+	case 2:
+		if loc, err := time.LoadLocation("Europe/Berlin"); err == nil {
+			return time.Date(2021, 3, 25, 0, 0, 0, 0, loc) // 2021-03-28 is day 3
+		}
+	}
+	return base2000
+}
+
+func syncSnapshots(base time.Time, from, n int, seed int64, tag float64) []*asset.Snapshot {
 	rng := rand.New(rand.NewSource(seed))
 	out := make([]*asset.Snapshot, n)
 	for i := range out {
 		p := 10 + 90*rng.Float64()
-		out[i] = &asset.Snapshot{Date: base2000.AddDate(0, 0, from+i), Open: p, High: p + 1, Low: p - 1, Close: p + 0.5, Volume: tag}
+		out[i] = &asset.Snapshot{Date: base.AddDate(0, 0, from+i), Open: p, High: p + 1, Low: p - 1, Close: p + 0.5, Volume: tag}
 	}
 	return out
 }
@@ -295,7 +332,11 @@ func (c12) Run(c *Case, st *Stats) []Violation {
 		vs = append(vs, Violation{Prop: "C12", Entity: c.Entity, Kind: kind, Regime: regime,
 			Detail: fmt.Sprintf("%s workers=%d delay=%d start=day%d list=%s%v assets=%+v faults=%v: %s", c.Entity, c.Workers, c.Delay, c.Param[0], c.Mode, c.Names, c.Assets, c.Faults, detail)})
 	}
-	defaultStart := base2000.AddDate(0, 0, c.Param[0])
+	base := syncBase(c)
+	defaultStart := base.AddDate(0, 0, c.Param[0])
+	if base != base2000 {
+		st.Faults["dates-in-a-daylight-saving-zone"]++
+	}
 	dir, dbName := "", ""
 	clientDone := false
 	var srcF, tgtF *FaultRepo
@@ -329,7 +370,7 @@ func (c12) Run(c *Case, st *Stats) []Violation {
 			inTarget := map[string]bool{}
 			for _, a := range c.Assets {
 				if !a.SrcAbsent {
-					srcData[a.Name] = syncSnapshots(a.SrcFrom, a.SrcN, a.Seed, 1)
+					srcData[a.Name] = syncSnapshots(base, a.SrcFrom, a.SrcN, a.Seed, 1)
 					if err := fill(src, a.Name, srcData[a.Name]); err != nil {
 						add("setup-error", "-", err.Error())
 						return
@@ -344,7 +385,7 @@ func (c12) Run(c *Case, st *Stats) []Violation {
 					inTarget[a.Name] = true
 					st.Faults["target-asset-registered-by-empty-file"]++
 				} else if !a.TgtAbsent {
-					before[a.Name] = syncSnapshots(a.TgtFrom, a.TgtN, a.Seed+1, 2)
+					before[a.Name] = syncSnapshots(base, a.TgtFrom, a.TgtN, a.Seed+1, 2)
 					if err := fill(tgt, a.Name, before[a.Name]); err != nil {
 						add("setup-error", "-", err.Error())
 						return
@@ -546,7 +587,7 @@ func days(s []*asset.Snapshot) string {
 		if x.Volume == 2 {
 			src = "tgt"
 		}
-		r += fmt.Sprintf("%s:day%d", src, int(x.Date.Sub(base2000).Hours()/24))
+		r += fmt.Sprintf("%s:%s", src, x.Date.Format("01-02T15"))
 	}
 	return r + "]"
 }
